@@ -177,11 +177,23 @@ def run(chk, replay=None):
         _, fa_p, fb_p, _ = gridded_world(nc, nb, perm=p_cell, seed=chk.seed * 100 + t, via_file=(t % 2 == 1), mirror=mirror)
         for name, fn, analytic, simfree in GT:
             base = guarded_timeout(30, fn, fa, fb, gridded_catalog(org, events, ident, fa.region, mags))
-            perm_ev = guarded_timeout(30, fn, fa, fb, gridded_catalog(org, events, p_ev, fa.region, mags))
+            if t % 2 == 0:
+                # the re-ordering done on a catalog object that was evaluated before (events re-stored through the public
+                # attribute, or sorted in place), then evaluated again
+                cat_ = gridded_catalog(org, events, ident, fa.region, mags)
+                guarded_timeout(30, fn, fa, fb, cat_)
+                if t % 4 == 0:
+                    cat_.catalog = cat_.catalog[numpy.array(p_ev)]
+                else:
+                    cat_.catalog[:] = cat_.catalog[numpy.array(p_ev)]
+                perm_ev = guarded_timeout(30, fn, fa, fb, cat_)
+            else:
+                perm_ev = guarded_timeout(30, fn, fa, fb, gridded_catalog(org, events, p_ev, fa.region, mags))
             perm_cell = guarded_timeout(30, fn, fa_p, fb_p, gridded_catalog(org, events, ident, fa_p.region, mags))
             chk.count(3)
             # bit-for-bit identity is required of the simulation-based tests (those taking a seed); the analytic ones to rounding
-            add('events', name, base, perm_ev, not analytic, True, True, {'id': t, 'shape': [nc, nb], 'events': events[:8], 'perm': p_ev[:12]})
+            add('events', name, base, perm_ev, not analytic, True, True, {'id': t, 'shape': [nc, nb], 'events': events[:8], 'perm': p_ev[:12],
+                                                                           'same_catalog_object_evaluated_before': t % 2 == 0})
             add('cells', name, base, perm_cell, False, analytic, False, {'id': t, 'shape': [nc, nb], 'events': events[:8], 'perm': p_cell, 'via_file': t % 2 == 1})
 
     # ---------------------------------------------------------------- gridded tests on quadtree regions (cells re-ordered)
